@@ -4,8 +4,10 @@ UNITS = {
     "c15_typesdaemon": dict(pkg="./types/daemon", tags="default_build"),
     "c15_types": dict(pkg="./types", tags="default_build"),
     "c15_plugin": dict(pkg="./plugin/terway", tags="default_build"),
+    # unshare: terway-cli reads /var/run/eni/node_capabilities (tmpfs there) and probes netlink
     "c15_cli": dict(pkg="./cmd/terway-cli", tags="default_build", unshare=True),
     "c15_eni": dict(pkg="./pkg/eni", tags="default_build"),
+    # unshare: gcPods / ruleSync talk netlink; ruleSync cases additionally create their own netns
     "c15_daemon": dict(pkg="./daemon", tags="default_build", unshare=True),
     "c15_webhook": dict(pkg="./pkg/controller/webhook", tags="default_build"),
     "c15_podctl": dict(pkg="./pkg/controller/pod", tags="default_build"),
@@ -15,11 +17,15 @@ UNITS = {
 PROPS = {
     "C15": dict(
         level="exploration",
-        technique="property-based testing (rapid): three input generators per user-writable field (valid / one mutation / raw bytes), a recovered panic is the only failure; bandwidth scaling checked against its own arithmetic",
-        rule="per entry point, inputs drawn 1:1:1 from structured-valid, structured-valid with one mutation, raw byte strings; non-trivial = the input got past the first validation step of its parser (depth labels); distinct = distinct scenario hash",
-        assumptions=[],
-        level_text="generated inputs for every reachable user-writable field; exploration, not proof",
-        level_note="",
+        technique="property-based testing (rapid): per user-writable field three input generators mixed 1:1:1 (structured-valid / structured-valid with one mutation / raw byte strings) fed to the real parser and to the code that consumes its result; a panic is the only failure, except the bandwidth sentence, checked against its own arithmetic (accepted with/without unit, aliases equal, x1024 per unit step within integer truncation, monotone in n)",
+        rule="per entry point, inputs drawn 1:1:1 from valid-by-construction, valid with exactly one mutation (type swap, truncation, huge number, unicode, empty, null, renamed/duplicated key, mutation inside an embedded JSON string) and raw byte strings (random bytes / strings over the field's alphabet / hostile constants); non-trivial = the input got past the first validation step of its parser (decoded as JSON / numeric prefix parsed / annotation present / address parsed; see depth labels); distinct = distinct scenario hash",
+        assumptions=[
+            "daemon mode (ENIMultiIP/ENIOnly) and the reply's IP type are restricted to the values the daemon itself produces (convertPod and getDatePath panic by design on others)",
+            "the daemon's reply reaches the plugin as gRPC messages: absent sub-messages are nil, repeated fields never hold nil",
+            "stored records are decoded as InitResourceDB's deserialiser does (json.Unmarshal into daemon.PodResources; the closure itself is bound to a fixed path and is mirrored)",
+        ],
+        level_text="generated inputs for 15 parser/consumer entry points of the daemon, controllers, webhook, CNI plugin and terway-cli, with per-entry depth histograms; exploration, not proof; native coverage-guided fuzzing is not part of the registered check",
+        level_note="parseSetupConf is only given ENI MACs that are empty (a MAC that does not resolve makes it wait 10 s); storeRuntimeConfig is only called on chains without cilium-cni (it would run nsenter/mount on the host); processInput's kernel/bpftool probes, InitResourceDB's closure and getENIConfig of terway-cli are mirrored (<= 5 lines each); controller-runtime recovers panics of webhook handlers and reconcilers by default, the harness calls podWebhook / podNetworkingWebhook / podNumaHints directly and is therefore stricter than production; not reached: daemon AllocIP with stored records (needs a running pool, see C04/C05), plugin datapath set-up after parsing (C13), k8s.serviceCidrFromAPIServer / GetDynamicConfigWithName, Windows code",
         tests=[
             dict(unit="c15_k8s", test="TestVerifC15Bandwidth", quick=30000, thorough=3000000),
             dict(unit="c15_k8s", test="TestVerifC15BandwidthScale", quick=10000, thorough=1000000),
@@ -29,17 +35,18 @@ PROPS = {
             dict(unit="c15_k8s", test="TestVerifC15PodStore", quick=8000, thorough=400000),
             dict(unit="c15_controlplane", test="TestVerifC15PodNetworksAnnotation", quick=16000, thorough=2000000),
             dict(unit="c15_podeni", test="TestVerifC15NumaHints", quick=12000, thorough=2000000),
-            dict(unit="c15_typesdaemon", test="TestVerifC15DaemonConfig", quick=16000, thorough=2000000),
+            dict(unit="c15_typesdaemon", test="TestVerifC15DaemonConfig", quick=16000, thorough=1000000),
             dict(unit="c15_types", test="TestVerifC15IPHelpers", quick=16000, thorough=2000000),
             dict(unit="c15_plugin", test="TestVerifC15CNIPlugin", quick=12000, thorough=1000000),
-            dict(unit="c15_cli", test="TestVerifC15TerwayCLI", quick=8000, thorough=400000),
+            dict(unit="c15_cli", test="TestVerifC15TerwayCLI", quick=6000, thorough=300000),
             dict(unit="c15_eni", test="TestVerifC15KnownWitnessRecordNilPodInfo", quick=1, thorough=1, shards=1),
-            dict(unit="c15_eni", test="TestVerifC15LocalLoad", quick=12000, thorough=1000000),
+            dict(unit="c15_eni", test="TestVerifC15LocalLoad", quick=12000, thorough=500000),
             dict(unit="c15_daemon", test="TestVerifC15PoolConfig", quick=8000, thorough=1000000),
-            dict(unit="c15_daemon", test="TestVerifC15StoredRecords", quick=8000, thorough=400000),
+            dict(unit="c15_daemon", test="TestVerifC15StoredRecords", quick=8000, thorough=300000),
             dict(unit="c15_daemon", test="TestVerifC15KnownWitnessStoredRecords", quick=1, thorough=1, shards=1),
-            dict(unit="c15_daemon", test="TestVerifC15RuleSync", quick=640, thorough=40000),
-            dict(unit="c15_webhook", test="TestVerifC15Webhook", quick=8000, thorough=400000),
+            # one fresh network namespace per case (slow, serialised in the kernel): few cases
+            dict(unit="c15_daemon", test="TestVerifC15RuleSync", quick=640, thorough=8000),
+            dict(unit="c15_webhook", test="TestVerifC15Webhook", quick=8000, thorough=300000),
             dict(unit="c15_podctl", test="TestVerifC15PodController", quick=8000, thorough=400000),
         ],
     ),
